@@ -1170,6 +1170,7 @@ class quantized_linear(base_quantizer.BaseQuantizer):
         "alpha": self.alpha,
         "keep_negative": self.keep_negative,
         "use_stochastic_rounding": self.use_stochastic_rounding,
+        "scale_axis": self.scale_axis,
         "qnoise_factor": self.qnoise_factor,
     }
     return config
@@ -1530,7 +1531,17 @@ class quantized_bits(base_quantizer.BaseQuantizer):  # pylint: disable=invalid-n
             # Since NumPy arrays are not directly JSON-serializable,
             # we convert them to lists.
             (self.post_training_scale.tolist() if self.post_training_scale is
-             not None else None)
+             not None else None),
+        "scale_axis":
+            self.scale_axis,
+        "use_ste":
+            self.use_ste,
+        "elements_per_scale":
+            self.elements_per_scale,
+        "min_po2_exponent":
+            self.min_po2_exponent,
+        "max_po2_exponent":
+            self.max_po2_exponent,
     }
     return config
 
@@ -1646,7 +1657,11 @@ class bernoulli(base_quantizer.BaseQuantizer):  # pylint: disable=invalid-name
     return cls(**config)
 
   def get_config(self):
-    config = {"alpha": self.alpha}
+    config = {
+        "alpha": self.alpha,
+        "temperature": self.temperature,
+        "use_real_sigmoid": self.use_real_sigmoid,
+    }
     return config
 
 
@@ -2152,7 +2167,11 @@ class binary(base_quantizer.BaseQuantizer):  # pylint: disable=invalid-name
     config = {
         "use_01": self.use_01,
         "alpha": self.alpha,
-        "use_stochastic_rounding": self.use_stochastic_rounding
+        "use_stochastic_rounding": self.use_stochastic_rounding,
+        "scale_axis": self.scale_axis,
+        "elements_per_scale": self.elements_per_scale,
+        "min_po2_exponent": self.min_po2_exponent,
+        "max_po2_exponent": self.max_po2_exponent,
     }
     return config
 
@@ -2479,6 +2498,10 @@ class quantized_relu(base_quantizer.BaseQuantizer):  # pylint: disable=invalid-n
             self.use_stochastic_rounding,
         "relu_upper_bound":
             self.relu_upper_bound,
+        "is_quantized_clip":
+            self.is_quantized_clip,
+        "use_ste":
+            self.use_ste,
         "qnoise_factor":
             self.qnoise_factor.numpy() if isinstance(
                 self.qnoise_factor, tf.Variable) else self.qnoise_factor
@@ -2951,7 +2974,9 @@ class quantized_po2(base_quantizer.BaseQuantizer):  # pylint: disable=invalid-na
             self.qnoise_factor.numpy() if isinstance(
                 self.qnoise_factor, tf.Variable) else self.qnoise_factor,
         "log2_rounding":
-            self.log2_rounding
+            self.log2_rounding,
+        "use_ste":
+            self.use_ste
     }
     return config
 
@@ -3125,7 +3150,9 @@ class quantized_relu_po2(base_quantizer.BaseQuantizer):  # pylint: disable=inval
             self.qnoise_factor.numpy() if isinstance(
                 self.qnoise_factor, tf.Variable) else self.qnoise_factor,
         "log2_rounding":
-            self.log2_rounding
+            self.log2_rounding,
+        "use_ste":
+            self.use_ste
     }
     return config
 
@@ -3278,8 +3305,9 @@ class quantized_hswish(quantized_bits):  # pylint: disable=invalid-name
 
     base_config = super(quantized_hswish, self).get_config()
     # quantized_hswish.__init__ does not take these quantized_bits arguments.
-    base_config.pop("keep_negative", None)
-    base_config.pop("post_training_scale", None)
+    for key in ("keep_negative", "post_training_scale", "use_ste",
+                "elements_per_scale", "min_po2_exponent", "max_po2_exponent"):
+      base_config.pop(key, None)
 
     config = {
         "relu_shift": self.relu_shift,
